@@ -278,4 +278,57 @@ Section Facts.
     - constructor; [intros []| constructor].
     - constructor; [apply consistent_rewire | constructor].
   Qed.
+
+  (* ---- the constructor ---- *)
+  Notation cstate := (cstate Cc Hc Sc).
+  Notation ctor_step_run := (ctor_step_run Cc Hc Sc d0).
+  Notation ctor_steps := (ctor_steps Cc Hc Sc d0).
+  Notation construct := (construct Cc Hc Sc d0).
+
+  Definition cs_ok (n addr : nat) (s : cstate) : Prop :=
+    length (fst (fst s)) = n /\ c_cn _ _ _ (snd (fst s)) = addr.
+
+  Lemma ctor_step_ok a n addr s k : cs_ok n addr s -> cs_ok n addr (ctor_step_run a s k).
+  Proof.
+    destruct s as [[h c] b]. intros [L A]. simpl in L, A. destruct k; simpl.
+    - destruct (a_hvap _ _ _ a); split; simpl; auto.
+    - split; auto.
+    - destruct (a_default _ _ _ a); [destruct b|]; split; simpl; auto.
+    - destruct (a_method _ _ _ a) as [[fh fc]|]; split; simpl; auto. rewrite upd_length. exact L.
+    - unfold reset_rebuilds_from_own, rewire_if. split; simpl; auto.
+  Qed.
+
+  Lemma ctor_steps_ok a n addr l : forall s, cs_ok n addr s -> cs_ok n addr (ctor_steps a s l).
+  Proof.
+    induction l as [|k l IH]; intros s H; simpl; [exact H|]. apply IH. apply ctor_step_ok. exact H.
+  Qed.
+
+  (* whatever ran before: when the LAST statement is reset_free_energies, the object has functors and they are the
+     wiring of its own final inputs *)
+  Lemma ctor_steps_end_reset a n addr l s : cs_ok n addr s -> (addr < n)%nat ->
+    exists h c, ctor_steps a s (l ++ [KReset]) = (h, c, true) /\ inv (h, [c]).
+  Proof.
+    intros H L. unfold Rewire.ctor_steps. rewrite fold_left_app. simpl.
+    pose proof (ctor_steps_ok a n addr l s H) as H'. unfold Rewire.ctor_steps in H'.
+    destruct (fold_left (ctor_step_run a) l s) as [[h c] b]. destruct H' as [L' A']. simpl in L', A'.
+    exists h, (rewire h c). split; [reflexivity|].
+    split; [split|]; simpl.
+    - intros y [<-|[]]. simpl. rewrite A', L'. exact L.
+    - constructor; [intros []|constructor].
+    - constructor; [apply consistent_rewire|constructor].
+  Qed.
+
+  (* Chemical(ID, Hvap=..., default=..., method=...) for ANY arguments: the new chemical has H / S functors, and they
+     are the generated wiring of the inputs it has when the constructor returns -- in particular of the Hvap model
+     selected by method=.  Rests on the generated order of the constructor's statements (Gen_Rewire.ctor_tail). *)
+  Lemma construct_wired a h k p sc hv addr : (addr < length h)%nat ->
+    exists c, snd (construct a h k p sc hv addr) = Some c /\ inv (fst (construct a h k p sc hv addr), [c]).
+  Proof.
+    intros L. unfold Rewire.construct.
+    assert (E : ctor_tail = removelast ctor_tail ++ [KReset]) by reflexivity.
+    rewrite E.
+    destruct (ctor_steps_end_reset a (length h) addr (removelast ctor_tail) (ctor_blank Cc Hc Sc d0 h k p sc hv addr))
+      as (h' & c & R & I); [split; reflexivity | exact L |].
+    rewrite R. exists c. split; [reflexivity | exact I].
+  Qed.
 End Facts.
